@@ -24,7 +24,7 @@ def run (_tag : String) (kv : KV) : String :=
   let after := s!"double={showRes (afterCrash P .call)} callback2={showRes (afterCrash P .brokerDial)} bdial={if kv.getD "proto" "netrpc" = "grpcmux" then "any" else showRes (afterCrash P .brokerDial)} baccept=any ping={showRes (afterCrash P .ping)} kill={showRes (afterCrash P .kill)}"
   if point = "attached-before-connect" then
     s!"start=ok client=any latecb={showRes (afterCrash P .brokerAccept)} kill={showRes (afterCrash P .kill)}"
-  else if point = "before-output" ∨ point = "mid-line" ∨ point = "after-listener" then
+  else if point = "before-output" ∨ point = "mid-line" ∨ point = "blank-lines-then-exit" ∨ point = "after-listener" then
     s!"start={showRes (afterCrash P .start)} {ex} kill={showRes (afterCrash P .kill)}"
   else if point = "after-line" then s!"start=ok client=any {ex} kill={showRes (afterCrash P .kill)}"
   else if point = "during-dispense" ∨ (point = "broker-plugin-accept" ∧ !grpc) then
